@@ -203,10 +203,12 @@ Next ==
   \/ \E t \in Texts : TextHashOK(t)
 
 \* The action a given request record takes (used by the trace specification).
+\* @type: ({ text: Str, ext: Str, ver: Str, hash: Str, mal: Str }) => Bool;
 ReqOK(r) ==
   /\ r.text \in AnyText
   /\ r.ext \in {"none", "null", "undecodable", "malformed", "pq"}
   /\ r.hash \in Hashes \cup {None}
+\* @type: ({ text: Str, ext: Str, ver: Str, hash: Str, mal: Str }) => Bool;
 Step(r) ==
   /\ ReqOK(r)
   /\ \/ r.ext \in {"none", "null"} /\ TextOnly(r.text, r.ext)
@@ -245,7 +247,7 @@ LruOK ==
   /\ kind = "map" => order = <<>>
   /\ kind = "lru" =>
        /\ Len(order) <= cap
-       /\ {order[i] : i \in 1..Len(order)} = DOMAIN cache
+       /\ {order[i] : i \in DOMAIN order} = DOMAIN cache
        /\ Cardinality(DOMAIN cache) = Len(order)
 
 TypeOK ==
@@ -255,8 +257,10 @@ TypeOK ==
   /\ \A h \in DOMAIN cache : cache[h] \in Texts
   /\ sent \subseteq Hashes \X Texts
 
+\* @type: ({ text: Str, ext: Str, ver: Str, hash: Str, mal: Str }) => Bool;
 WellFormedV1(r) == r.ext = "pq" /\ r.ver = "1"
 \* the only request form that may register: version 1, text present, hash = H(text)
+\* @type: ({ text: Str, ext: Str, ver: Str, hash: Str, mal: Str }) => Bool;
 Registers(r) == WellFormedV1(r) /\ r.text # NoText /\ r.hash = HashOf[r.text]
 
 \* (1) a hash-only request executes exactly cache[h], or is answered PersistedQueryNotFound
